@@ -233,10 +233,12 @@ theorem selected_all_complete (g : BuildGraph) (s : Selector) (h : Host) (order 
   · exact Or.inr (Or.inl h1)
   · exact Or.inr (Or.inr ⟨h1, a, (anc_iff_reachPlus g sel ff a n).mp ha, hf⟩)
 
-/-- the C12 theorems hold for every selector, in particular for those whose patterns were produced by the parser
-    of C17 from any strings in any current package (this is how the CLI builds them) -/
+/-- the C12 theorems hold for every selector, in particular for those whose pattern *set* was produced from the command
+    line arguments by `ParsePatternsOrMatchAll` (`parsePatterns` of C17, which `C17.parsePatterns_matches_iff` characterises:
+    a label matches the set iff there are no arguments or one of the arguments, parsed on its own, matches it — in particular
+    `//...:name` next to other patterns does not widen to "everything") -/
 theorem select_eq_closure_parsed (g : BuildGraph) (cur : Bytes) (strs : List Bytes) (pats : List Pattern)
-    (_hp : strs.mapM (parsePattern cur) = some pats) (tags ex : List Bytes) (typ : TypeSel)
+    (_hp : parsePatterns cur strs = some pats) (tags ex : List Bytes) (typ : TypeSel)
     (h : Host) (order sel : List Nat) (c : Nat) (hc : Covers g order)
     (hok : selectForBuild g ⟨pats, tags, ex, typ⟩ h order = .ok sel c) (x : Nat) :
     x ∈ sel ↔ Matched g ⟨pats, tags, ex, typ⟩ h x ∨ ∃ m, Matched g ⟨pats, tags, ex, typ⟩ h m ∧ ReachPlus g.edges x m :=
